@@ -44,6 +44,25 @@ def check(tier, seed):
                     for hm in ('sha256', 'sha512', 'shake128'):
                         # a hash-mode verification whose OID||digest cannot equal the pure message
                         cases.append({'line': f"verify {s} {hm} {base} {hx(msg[len(R.OIDS[hm]):])} {hx(ctx)} {sig.hex()}", 'tag': 'hash mode on a pure signature', 'want': 'false', 'model': False})
+    # mimicry inside a pre-hash mode: the message OID(PH) || PH(M) (or OID || any digest-length string) is an ordinary message there and
+    # must be hashed like any other; a signature for M must not verify for it, nor the other way round, for the same or another pre-hash
+    for s in fam.SETS:
+        p = R.PARAMS[s]
+        xi = bytes(rng.randrange(256) for _ in range(32))
+        pk, sk = fam.keypair(s, xi)
+        base = f"bytes:{pk.hex()}"
+        ctx = b'c6'
+        msg = bytes(rng.randrange(256) for _ in range(19))
+        for mode in ('sha256', 'sha512', 'shake128'):
+            sig_m = R.sign(p, sk, msg, ctx, mode, bytes(32))
+            for oidmode in ('sha256', 'sha512', 'shake128'):
+                for tag, mim in (('OID || PH(M)', R.OIDS[oidmode] + R.prehash(oidmode, msg)),
+                                 ('OID || random digest-length bytes', R.OIDS[oidmode] + bytes(rng.randrange(256) for _ in range(len(R.prehash(oidmode, b''))))),
+                                 ('OID alone', R.OIDS[oidmode]), ('OID || PH(M) || one more byte', R.OIDS[oidmode] + R.prehash(oidmode, msg) + b'\x00')):
+                    cases.append({'line': f"verify {s} {mode} {base} {hx(mim)} {hx(ctx)} {sig_m.hex()}", 'tag': f'pre-hash mode given the message {tag}: signature for M', 'want': 'false', 'model': s == '44' and mode == oidmode})
+                    sig_x = R.sign(p, sk, mim, ctx, mode, bytes(32))        # what FIPS 204 signs for that message
+                    cases.append({'line': f"verify {s} {mode} {base} {hx(mim)} {hx(ctx)} {sig_x.hex()}", 'tag': f'pre-hash mode given the message {tag}: its own FIPS signature', 'want': 'true', 'model': False})
+                    cases.append({'line': f"verify {s} {mode} {base} {hx(msg)} {hx(ctx)} {sig_x.hex()}", 'tag': f'pre-hash mode: signature for {tag} presented for M', 'want': 'false', 'model': False})
     # splits that put 256 or more bytes into the context: the one-byte length field would wrap (256 -> 0, 257 -> 1, 65536 -> 0 ...)
     for s in fam.SETS:
         p = R.PARAMS[s]
